@@ -19,7 +19,22 @@ def main():
     ctx = Ctx(prop, spec)
     if bool(spec.get("optimize")) == bool(__debug__):
         raise RuntimeError("shard optimisation level differs from its plan")
-    mod.run(spec, ctx)
+    try:
+        mod.run(spec, ctx)
+    except Exception as e:
+        # An exception that comes OUT of the repository's code while the harness merely imports it, builds an options
+        # object or calls an entry point outside any monitored decode (e.g. a module that no longer imports, a table loader
+        # that raises) is not a harness failure: nothing can be decoded, every property that needs this code is violated.
+        import traceback
+        frames = traceback.extract_tb(e.__traceback__)
+        inner = frames[-1].filename if frames else ""
+        if not os.path.realpath(inner).startswith(os.path.realpath(env.MODULES) + os.sep):
+            raise
+        where = "%s:%d %s" % (os.path.relpath(os.path.realpath(inner), os.path.realpath(env.MODULES)), frames[-1].lineno, frames[-1].name)
+        ctx.violation("%s/repository-code-raised-outside-a-decode/%s" % (prop.upper(), type(e).__name__),
+                      "the code under test raised %r at %s while the harness was setting up / driving it (last harness frame: %s)" %
+                      (e, where, next(("%s:%d" % (os.path.basename(f.filename), f.lineno) for f in reversed(frames)
+                                       if "/vf/" in f.filename), "?")))
     ctx.counters["shards.python_O" if not __debug__ else "shards.python_default"] += 1
     tmp = out + ".tmp"
     with open(tmp, "w") as f:
